@@ -917,6 +917,10 @@ class APIConnection:
     def process_packet(self, msg_type_proto: _int, data: _bytes) -> None:
         """Process an incoming packet."""
         debug_enabled = self._debug_enabled
+        if self.connection_state is CONNECTION_STATE_CLOSED:
+            # Frames that were buffered behind the one that closed the
+            # connection must not be dispatched anymore
+            return
         try:
             # MESSAGE_NUMBER_TO_PROTO is 0-indexed
             # but the message type is 1-indexed
